@@ -207,6 +207,41 @@ def scan_determinism(ctx, n):
             shutil.rmtree(d, ignore_errors=True)
 
 
+def scan_history(ctx, n):
+    """Scans do not depend on which trees were scanned before in the same interpreter: tree A, then a different tree B
+    that re-uses A's module names (other imports, all import forms incl. relative ones), then A again, then A with another
+    module_path - every scan of A must equal the first one."""
+    from harness import scan
+    for it in range(n):
+        rng = ctx.rng
+        root, dirs, files = scan.gen_tree(rng, max_depth=4, root="proj")
+        scan.gen_imports(rng, dirs, files, nested=False)
+        files_b = {f: {"py": v["py"], "body": []} for f, v in files.items()}
+        scan.gen_imports(rng, dirs, files_b, nested=False)
+        base_a = scan.materialise(dirs, files)
+        base_b = scan.materialise(dirs, files_b)
+        try:
+            first = scan.real_scan(base_a, root, (root,))
+            if first[0] != "OK":
+                continue
+            scan.real_scan(base_b, root, (root,))
+            sub = [d for d in dirs if len(d) == 2][:1]
+            for mp in sub:
+                scan.real_scan(base_a, root, mp)
+            again = scan.real_scan(base_a, root, (root,))
+            ctx.evaluations += 3 + len(sub)
+            if again[0] != "OK" or (first[1], first[2]) != (again[1], again[2]):
+                ctx.violation(dict(dirs=[list(d) for d in dirs], files={scan.dotted(f): (scan.render_file(v["body"]) if v["py"] else None) for f, v in files.items()},
+                                   files_of_interleaved_scan={scan.dotted(f): (scan.render_file(v["body"]) if v["py"] else None) for f, v in files_b.items()},
+                                   edges_lost=sorted(set(first[2]) - set(again[2] or []))[:5], edges_gained=sorted(set(again[2] or []) - set(first[2]))[:5]),
+                              "a scan of the same tree differs after other scans in the same interpreter", {"kind": "scan_history"})
+            if first[2]:
+                ctx.mark_nontrivial(("scanhist", it, len(first[2])))
+        finally:
+            scan.cleanup(base_a)
+            scan.cleanup(base_b)
+
+
 def hash_seeds(ctx, n_cases):
     seeds = [0, 1, 2, 3, 17, 101, 4242, 99999]
     battery_seed = ctx.rng.randrange(1 << 30)
@@ -240,11 +275,12 @@ def run(ctx: Ctx):
         rules.merge_into(ctx, r)
     layer_order_permutations(ctx, 60 if ctx.quick else 2000)
     scan_determinism(ctx, 40 if ctx.quick else 800)
+    scan_history(ctx, 60 if ctx.quick else 1500)
     hash_seeds(ctx, 40 if ctx.quick else 600)
     ctx.stat("shared_evaluables", n)
     ctx.rule = (f"{n} shared evaluables (3/4 built directly, 1/4 scanned), each: 40 evaluations drawn from a pool of 14 module-rule shapes + 14 layer-rule shapes, every outcome compared with the same "
                 "evaluation alone on a fresh architecture, snapshot (modules + edges with hierarchy flags) before/after; same rule object re-applied and applied to a second architecture; all permutations "
-                "(<=6 each) and a duplication of subject/object lists; layer order / module order / object-layer order permuted; two scans, permuted exclusion tuples, 3 shuffled Path.iterdir orders; "
+                "(<=6 each) and a duplication of subject/object lists; layer order / module order / object-layer order permuted; two scans, permuted exclusion tuples, 3 shuffled Path.iterdir orders; scan of a tree repeated after scans of a different tree with the same module names and of a sub-directory (all import forms); "
                 "8 hash seeds in fresh interpreters (sha256 of all (verdict, message) pairs of a deterministic battery must coincide). This runtime part is checked by execution only (partial): "
                 "the theorems cover the model's order independence and re-application. non-trivial = evaluable whose pool gives different verdicts / distinct scanned trees")
     ctx.notes.append("partial: CPython set/dict iteration, Path.iterdir, networkx freeze are exercised, not proved")
